@@ -308,6 +308,9 @@ def check_verify(ctx, case):
     keys = _lib()
     zb = bytes.fromhex(case['z'])
     z = int.from_bytes(zb, 'big')
+    if case.get('zlen') and z < (1 << (8 * case['zlen'])):
+        zb = zb[-case['zlen']:]
+        ctx.klass('verify.short_digest')
     r, s = int(case['r'], 16), int(case['s'], 16)
     pkb = bytes.fromhex(case['pk'])
     ht = case.get('ht', 1)
@@ -600,6 +603,8 @@ def build_verify_case(mode, d, zb, k, aux, aux2, bit, derhow, pkcomp, sigform, p
     case = {'kind': 'verify', 'mode': mode if mode != 'der_variant' else 'der_' + derhow, 'z': _h(z), 'r': '%x' % r,
             's': '%x' % s, 'pk': pkb.hex(), 'sigform': sigform, 'pkform': pkform, 'zform': zform, 'entry': entry,
             'ht': ht}
+    if len(zb) < 32 and z < (1 << (8 * len(zb))):
+        case['zlen'] = len(zb)      # a digest shorter than 32 bytes is handed over as it is (not zero padded)
     if pkform == 'key_priv':
         case['d'] = _h(d)
     if der is not None:
@@ -637,8 +642,12 @@ def strategies(ctx):
                   133, 275, 305, 564, 574, 836, 45, 145, 311, 336, 816, 1107]
     ks = st.one_of(st.integers(1, n - 1), st.integers(1, 50), st.integers(1, 50).map(lambda v: n - v),
                    st.sampled_from(special_ks))
+    # digests of 32 bytes and, one in five, genuinely shorter ones (20-byte RIPEMD160 / SHA1 style digests, 31 bytes):
+    # standard ECDSA takes a digest shorter than the group order as the integer it is
+    vdig = st.one_of(gen.digests(), gen.digests(), gen.digests(), gen.digests(),
+                     st.sampled_from([20, 20, 31, 16]).flatmap(lambda n: st.binary(min_size=n, max_size=n)))
     verify = st.builds(
-        build_verify_case, st.sampled_from(MODES), gen.secrets(), gen.digests(), ks, st.integers(0, 1 << 30),
+        build_verify_case, st.sampled_from(MODES), gen.secrets(), vdig, ks, st.integers(0, 1 << 30),
         st.integers(0, (1 << 256) - 1), st.integers(0, 255), st.sampled_from(DER_HOWS), st.booleans(),
         st.sampled_from(['ints', 'raw64', 'hex128', 'der', 'der', 'der_hex']),
         st.sampled_from(['key_pub', 'key_pub', 'key_priv', 'hdkey_pub', 'bytes', 'bytes', 'hex']),
